@@ -68,6 +68,9 @@ type c14Handler struct {
 }
 
 func (h *c14Handler) HandleMessage(m *tss.IncMessage) {
+	// a caller can be pre-empted between the buffer's decision to hand a message over and the hand-over itself:
+	// the entry of the handler is a scheduling point like any lock operation
+	simsync.Yield(simsync.OpOther, 1)
 	h.mu.Lock()
 	h.log = append(h.log, string(m.Data))
 	h.mu.Unlock()
@@ -186,7 +189,7 @@ func runC14(t *testing.T, spec RunSpec) *RunResult {
 		box := &msg.Box{
 			Logger: NewCountLogger(), MaxInFlightTopicsBySender: 10000, GCSweep: 20 * time.Second, GCExpire: 2 * time.Minute,
 			NewTicker:      func(time.Duration) *time.Ticker { return &time.Ticker{C: tick} },
-			ForwardSend:    func(msgType uint8, topic []byte, m []byte, to ...tss.UniversalID) {},
+			ForwardSend:    func(msgType uint8, topic []byte, m []byte, to ...tss.UniversalID) { simsync.Yield(simsync.OpOther, 2) },
 			MessageHandler: h,
 		}
 		h.box = box
